@@ -44,7 +44,9 @@ def run(ctx):
         n = int(rng.choice(sizes))
         k = int(rng.integers(3, 9))
         X, kind = gen.dataset(rng, n, int(rng.integers(2, 6)), kind="gauss")
-        D = pairwise_distances(X.astype(np.float64))
+        # the same distance kernel UMAP's exact path uses, so that the supplied table is *the* exact table
+        import umap.distances as UD
+        D = pairwise_distances(X, metric=UD.named_distances["euclidean"])
         np.fill_diagonal(D, 0.0)
         extra = int(rng.choice([0, 1, k]))
         force = bool(rng.integers(0, 2))
@@ -73,7 +75,7 @@ def run(ctx):
             ctx.violation("prefix", f"graph with {k + extra} columns differs from the graph with its first {k} columns by {d1} at {at1} "
                                     f"({m_full.graph_.nnz} vs {m_pref.graph_.nnz} entries)", case)
         d2, at2 = graph_diff(m_full.graph_, m_own.graph_)
-        if d2 > 1e-5:
+        if d2 > 2e-6:
             ctx.violation("exact-table", f"graph from the exact kNN table differs from UMAP's own exact fit by {d2} at {at2}", case)
         used = getattr(m_full, "_knn_dists", None)
         want = model_decision(k + extra, k, n, n, force)
